@@ -287,13 +287,25 @@ def run(pid, tier, seed):
         ctx = mp.get_context('fork')
         pool = ctx.Pool(nproc, maxtasksperchild=getattr(mod, 'MAXTASKS', None))
         results = pool.imap_unordered(_worker, jobs, chunksize=1)
-    for r in results:
+    # watchdog: no single wait for the next finished shard may exceed the stall limit (default 30 min quick, 3 h
+    # thorough); a stalled campaign ends as a harness error (exit 2) instead of hanging -- never as a violation
+    stall = float(os.environ.get('VERIF_STALL_S', '1800' if tier == 'quick' else '10800'))
+    it = iter(results)
+    while True:
+        try:
+            r = next(it) if isinstance(results, map) else it.next(timeout=stall)
+        except StopIteration:
+            break
+        except mp.TimeoutError:
+            errors.append(f'no shard finished within {stall:.0f} s: campaign stalled (inconclusive), workers terminated')
+            pool.terminate()
+            break
         if r['error']:
             errors.append(r['error'])
         walls.append(r['shard_wall'])
         total.merge(r)
     if not isinstance(results, map):
-        pool.close()
+        pool.close() if not errors or 'stalled' not in errors[-1] else None
         pool.join()
 
     t_pool = time.time() - t0
